@@ -130,6 +130,10 @@ def run(tier: str) -> int:
         progs.append((sp["name"], sp["sources"], False))
     for name, srcs in base.repo_sources():
         progs.append((name, srcs, True))
+    # HASH constants inside compile-time-folded expressions (names with negative and positive hashes)
+    for hn in ("ItemIronIngot", "ItemSteelIngot", "StructureBattery", "abcd", "O2"):
+        progs.append((f"hash_arith:{hn}", HDR + f'k = HASH("{hn}")\npush(HASH("{hn}"))\npush(HASH("{hn}") + 1)\npush(-HASH("{hn}"))\npush(k * 2)\npush(k - d0.Setting)\n'
+                      f'if HASH("{hn}") < 0:\n    push(1)\nif k > 0:\n    push(2)\npush(3)\n', False))
     for name, src in enum_programs(tier):
         progs.append((name, src, False))
     from .. import tables
